@@ -58,6 +58,16 @@ func FileHashFromHasher(path string, hasher hashio.Hasher) FileHash {
 
 type FileHashes []FileHash
 
+// The files an upload lists live next to its control file, so anything but a
+// plain file name (a path, "..") is refused before files get copied, moved or
+// deleted on its behalf.
+func checkPlainFilename(name string) error {
+	if name == "" || name == "." || name == ".." || strings.ContainsAny(name, "/\x00") {
+		return fmt.Errorf("'%s' is not a plain file name", name)
+	}
+	return nil
+}
+
 type verifier struct {
 	h      hash.Hash
 	want   []byte
